@@ -201,6 +201,31 @@ def main(tier, seed, budget):
                 for s in ss:
                     if rep.add(s, dict(run_seed=a['run_seed'], job=dict(fn=JOB, args=a), violation=r.get('violation'), probs=r.get('probs'))):
                         pending_min.append((s, a, r))
+            # ---- in situ: generation, then load_subs of the file it wrote, in the same job; combining stage vs round files ----
+            isj = []
+            isc = [('core_maths', 3), ('core_maths', 4), ('base_e_maths', 3), ('base_e_maths', 4), ('osc_maths', 3), ('ext_maths', 3), ('keep_duplicates', 3)]
+            if not quick:
+                isc += [('core_maths', 5), ('keep_duplicates', 4), ('base10_maths', 4), ('ext_maths', 4), ('osc_maths', 4)]
+            for ci, (rn_, c_) in enumerate(isc):
+                for vi, P_ in enumerate((1, 2, 3) if quick else (1, 2, 3, 5, 2, 3)):
+                    rs_ = base.run_seed(seed, 670000 + ci * 10 + vi)
+                    rg_ = base.rng_for(rs_)
+                    isj.append(dict(fn='checks.jobs:gen_load_world', timeout=1500, insitu=True,
+                                    args=dict(runname=rn_, compl=c_, basis=None, P=P_, seed=rs_, run_seed=rs_, use_sympy=rg_.random() < 0.5,
+                                              policy={'kind': rg_.choice(['uniform', 'pct', 'lowest', 'rr'])}, eager=rg_.choice([0.0, 0.5, 1.0]),
+                                              rows=[], max_param=(c_ + 1) // 2, bcast_res=True)))
+            for job, out in pool.imap(isj, timeout=1500):
+                a = job['args']
+                if out[0] != 'ok':
+                    rep.harness_error('in-situ world %s/%d P=%d: %s %s' % (a['runname'], a['compl'], a['P'], out[0], str(out[1])[-400:]))
+                    continue
+                r = out[1]
+                stats['insitu_worlds'] = stats.get('insitu_worlds', 0) + 1
+                stats['insitu_rows'] = stats.get('insitu_rows', 0) + int((r.get('stats') or {}).get('rows') or 0)
+                stats['insitu_chains'] = stats.get('insitu_chains', 0) + int((r.get('stats') or {}).get('precheck_chains') or 0)
+                stats['events'] += r['steps']
+                for s_ in sigs_of(a, r):
+                    rep.add(s_, dict(run_seed=a['run_seed'], hashseed=0, job=dict(fn='checks.jobs:gen_load_world', args=a), violation=r.get('violation'), probs=r.get('probs')))
             # ---- exhaustive cancellation chains (schedule-free part) ----
             ej = []
             for k in (1, 2, 3) if quick else (1, 2, 3, 4):
@@ -241,6 +266,7 @@ def main(tier, seed, budget):
         samples=samples, worlds_by_P=stats['by_P'], worlds_with_more_ranks_than_rows=stats['P_gt_rows'], distinct_files=len(stats['files']),
         rows_round_tripped=stats['rows'], steps_round_tripped=stats['steps'], chains_cancelled=stats['chains'],
         exhaustive_cancellation_chains=stats['exhaustive_chains'], cross_rank_count_comparisons=stats['xgroups'],
+        in_situ_generation_then_load_worlds=stats.get('insitu_worlds', 0), in_situ_rows_round_tripped=stats.get('insitu_rows', 0), in_situ_combined_chains_compared_with_round_files=stats.get('insitu_chains', 0),
         worlds_use_sympy=stats['use_sympy'], worlds_bcast_res=stats['bcast'], pool_sizes=stats.get('pool_sizes'),
         seam_events=stats['events'], runs_per_hour=round(3600.0 * stats['worlds'] / max(wall, 1e-9)),
         fault_kinds={'F1 interleaving choice': stats['events'], 'F5 rank count': stats['worlds']}, selftest=selftest,
